@@ -3,6 +3,7 @@ package main
 import (
 	"fmt"
 	"go/token"
+	"go/types"
 	"strings"
 
 	"golang.org/x/tools/go/ssa"
@@ -441,8 +442,9 @@ func c12(c *Ctx) {
 				continue
 			}
 			if strings.HasSuffix(pathOf(st.Val), "cache[info.IP].instance") || strings.Contains(pathOf(st.Val), "].instance") {
-				cs := strings.Join(condStrings(st.Block()), " && ")
-				if strings.Contains(cs, "info.Instance==nil)=true") && strings.Contains(cs, "==nil)=false") {
+				fs := factsAt(st.Block())
+				if knownNil(fs, func(v ssa.Value) bool { return strings.HasSuffix(pathOf(v), "info.Instance") }) &&
+					knownNonNil(fs, func(v ssa.Value) bool { return strings.HasSuffix(pathOf(v), "cache[info.IP]") }) {
 					okCarry = true
 				}
 			}
@@ -627,12 +629,15 @@ func c12(c *Ctx) {
 							wantPos = -1
 						}
 					}
-					evs := strings.Join(tr.Events, ";")
+					evs := strings.Join(tr.Events, ";") + ";"
 					okEv := true
-					if idle {
-						okEv = strings.Contains(evs, "append phi:toDelete") || strings.Contains(evs, "append toDelete")
+					evict := evictionList(dr)
+					if evict == "" {
+						okEv = false
+					} else if idle {
+						okEv = strings.Contains(evs, "append "+evict+";")
 					} else if exp {
-						okEv = strings.Contains(evs, "append toLookupIPs") && !strings.Contains(evs, "toDelete")
+						okEv = strings.Contains(evs, "append toLookupIPs;") && !strings.Contains(evs, "append "+evict+";")
 					} else {
 						okEv = !strings.Contains(evs, "append")
 					}
@@ -807,12 +812,7 @@ func c12(c *Ctx) {
 		}
 		c.SawFunc(FuncName(dr))
 		// (case table of R3 already pins idle-before-TTL); here: every toDelete element is deleted
-		okDel := false
-		for _, cl := range callsTo(dr, "builtin delete") {
-			if strings.HasSuffix(pathOf(cl.Common().Args[0]), "ccp.cache") && strings.Contains(pathOf(cl.Common().Args[1]), "rangeindex") {
-				okDel = true
-			}
-		}
+		okDel := evictionList(dr) != ""
 		r.Check("doRefresh:applies-evictions", okDel, dr.Pos(), "every source scheduled for eviction is deleted from the cache")
 		// idle period and TTL come from the options
 		okIdle := false
@@ -844,6 +844,49 @@ func c12(c *Ctx) {
 		r.Check("Run:refresh-ticker", okTick, run.Pos(), "refresh ticker period is CacheRefreshPeriod")
 		r.Check("Run:queued-lookups-are-submitted", okSend, run.Pos(), "sources queued by the refresh are sent to the lookup dispatcher")
 	})
+}
+
+// evictionList: the rendering of the slice whose every element is deleted from the cache by
+// doRefresh (the list the scan loop must append idle sources to), or "".
+func evictionList(dr *ssa.Function) string {
+	out := ""
+	for _, cl := range callsTo(dr, "builtin delete") {
+		a := cl.Common().Args
+		if !strings.HasSuffix(pathOf(a[0]), "ccp.cache") {
+			continue
+		}
+		// the key is an element of a slice that a loop covers completely
+		key := a[1]
+		for {
+			if ct, ok := key.(*ssa.ChangeType); ok {
+				key = ct.X
+				continue
+			}
+			break
+		}
+		u, ok := key.(*ssa.UnOp)
+		if !ok || u.Op != token.MUL {
+			continue
+		}
+		ia, ok := u.X.(*ssa.IndexAddr)
+		if !ok {
+			continue
+		}
+		if _, isSlice := ia.X.Type().Underlying().(*types.Slice); !isSlice {
+			continue
+		}
+		var ph *ssa.Phi
+		if p, ok := ia.Index.(*ssa.Phi); ok {
+			ph = p
+		} else if b := asBinOp(ia.Index, token.ADD); b != nil {
+			ph, _ = b.X.(*ssa.Phi)
+		}
+		if ph == nil || !loopCoversSlice(ph, ia.X) {
+			continue
+		}
+		out = pathOf(ia.X)
+	}
+	return out
 }
 
 // walkLoopBodyOnce evaluates one iteration of the (single) map range loop of fn under env,
